@@ -296,9 +296,26 @@ class H2Server(TimerMixin, Peer):
             if "t" in wh:
                 self.at(now + wh["t"], lambda t, ev=ev: self._fire(t, ev))
 
-    def _send_settings(self, now, named):
+    def _send_settings(self, now, named, partial=False):
         self.cur_settings.update(named)
         full = {k: v for k, v in self.cur_settings.items()}
+        if partial:
+            # the frame on the wire carries only the keys that change (a setting absent
+            # from a SETTINGS frame keeps its value, RFC 9113 6.5.3); h2's server-side
+            # bookkeeping is still fed the full key set, see on_open()
+            import hyperframe.frame as hf
+
+            self._flush(now)
+            self.c.update_settings({SETTING_NAMES[k]: v for k, v in full.items()})
+            self.c.clear_outbound_data_buffer()
+            f = hf.SettingsFrame(0)
+            f.settings = {int(SETTING_NAMES[k]): v for k, v in sorted(named.items())}
+            if not self.closed:
+                self.wire.push(now + self.hcfg.get("lat", 0.0005), f.serialize())
+            self.ledger.pending_adv.append(dict(full))
+            self.w.log("h2_srv_settings", self.wire.id, tuple(sorted(named.items())), "partial")
+            self.w.probes["h2_settings_partial"] += 1
+            return
         self.c.update_settings({SETTING_NAMES[k]: v for k, v in full.items()})
         self.ledger.pending_adv.append(dict(full))
         self.w.log("h2_srv_settings", self.wire.id, tuple(sorted(full.items())))
@@ -379,7 +396,7 @@ class H2Server(TimerMixin, Peer):
             w.stats["hostile:h2_" + do] += 1
         try:
             if do == "settings":
-                self._send_settings(now, ev["settings"])
+                self._send_settings(now, ev["settings"], bool(ev.get("partial")))
                 w.probes["h2_settings_change"] += 1
                 mcs = ev["settings"].get("max_concurrent_streams")
                 if mcs is not None and mcs < len(self.ledger.open_srv):
